@@ -1,15 +1,25 @@
 /-
 C15 — Bulk ingest acknowledges exactly what it stored.  Property theorems only.
 
-For EVERY bulk body (as a sequence of actions, each with or without its document line, optionally
-followed by an incomplete final action and/or a trailing newline): the response has exactly one item
-per action, in order; an item's status depends only on its own action and document (locality); the
-documents handed to the store are exactly those of the `created` items, in order; and the `errors`
-flag is true iff some item is not `created`.
-(The statement was false before the two `fix:` commits e6f2a3b / 1f7d4e3 — see known_findings.txt.)
+For EVERY bulk body (as a sequence of actions over any number of index names, each with or without its document
+line, optionally followed by an incomplete final action and/or a trailing newline), every index-name predicate,
+every alias table and every store behaviour:
+ * the response has exactly one item per action, in order; an item's status depends only on its own action and
+   document (locality); the `errors` flag is true iff some item is not `created`        (C15.1, C15.3, C15.4)
+ * the documents accepted by the loop are exactly those of the `created` items, in order, each with the index
+   name of ITS action                                                                  (C15.2)
+ * after the loop every accepted document is handed to the store exactly once, in the ONE batch of its own index
+   name, in request order; no batch contains a document of another index name; every batch passes
+   ProcessIndexRequestPle's checks and reaches the store under the real index of its name   (C15.5, C15.6)
+ * "created ⇒ stored" itself is FALSE for the code as it is: the error of the store call is only logged, the
+   response never depends on the store (C15.7).  The full statement, its counterexample, and the partial
+   statement under the decidable guard "the store accepts every batch of this request" — which is exactly the
+   class where it holds (C15.8) — with the locality of a store failure (only the refused index loses documents).
+(The loop statements were false before the two `fix:` commits e6f2a3b / 1f7d4e3 — see known_findings.txt.)
 -/
 import SigModel.Model.Bulk
 import SigModel.Lemmas.C15
+import SigModel.Lemmas.C15Store
 
 namespace SigModel.Props.C15
 open SigModel.Bulk
@@ -30,71 +40,92 @@ def Action.wf : Action → Prop
   | .single l => l.kind = Kind.other ∧ 0 < l.len
   | .withDoc a d => a.kind ≠ Kind.other ∧ 0 < a.len ∧ 0 < d.len
 
-/-- the per-action specification: depends on nothing but the action itself -/
-def status : Action → Status
+/-- the per-action specification: depends on nothing but the action itself (and the index-name predicate) -/
+def status (env : Env) : Action → Status
   | .single _ => .failed
   | .withDoc a d =>
     if a.kind = Kind.update then .failed
+    else if env.valid a.idx = false then .failed
     else if maxRecordSize ≤ d.len then .tooLarge
     else if d.docOk then .created else .failed
 
-def storedOf : Action → List Nat
+/-- the document an action contributes, with the index name of the action -/
+def storedOf (env : Env) : Action → List (Nat × Nat)
   | .single _ => []
-  | .withDoc a d => if a.kind ≠ Kind.update ∧ d.len < maxRecordSize ∧ d.docOk then [d.id] else []
+  | .withDoc a d =>
+    if a.kind ≠ Kind.update ∧ env.valid a.idx = true ∧ d.len < maxRecordSize ∧ d.docOk then [(a.idx, d.id)] else []
 
-def emptyLine : Line := { kind := .other, len := 0, docOk := false, id := 0 }
+def emptyLine : Line := { kind := .other, len := 0, docOk := false, id := 0, idx := 0 }
 
 /-- the body: complete actions, then optionally an index/create/update line whose document is
 missing, then optionally the trailing newline (= a final empty line) -/
 def bodyOf (acts : List Action) (dangling : Option Line) (nl : Bool) : List Line :=
   acts.flatMap Action.lines ++ dangling.toList ++ (if nl then [emptyLine] else [])
 
-def expectedItems (acts : List Action) (dangling : Option Line) : List Status :=
-  acts.map status ++ (dangling.map (fun _ => Status.failed)).toList
+def expectedItems (env : Env) (acts : List Action) (dangling : Option Line) : List Status :=
+  acts.map (status env) ++ (dangling.map (fun _ => Status.failed)).toList
+
+/-- the (index name, document) pairs of the `created` items, in request order -/
+def created (env : Env) (acts : List Action) : List (Nat × Nat) := acts.flatMap (storedOf env)
+
+/-- the documents of the `created` items addressed to index name `x`, in request order -/
+def docsOf (env : Env) (acts : List Action) (x : Nat) : List Nat :=
+  ((created env acts).filter (·.1 == x)).map (·.2)
+
+/-- the loop on a well-formed body: items, accepted documents and `errors` flag at once (C15.1–C15.3 are its parts) -/
+theorem loop_spec (env : Env) (acts : List Action) (dangling : Option Line) (nl : Bool)
+    (hwf : ∀ a ∈ acts, a.wf) (hd : ∀ l, dangling = some l → l.kind ≠ Kind.other ∧ 0 < l.len) :
+    (handle env (bodyOf acts dangling nl)).items = expectedItems env acts dangling ∧
+    (handle env (bodyOf acts dangling nl)).ples = created env acts ∧
+    (handle env (bodyOf acts dangling nl)).overallError = (expectedItems env acts dangling).any (· ≠ Status.created) :=
+  Lemmas.C15.handle_spec env
+    (fun a => match a with | .single l => .single l | .withDoc a d => .withDoc a d)
+    Action.lines Action.wf (status env) (storedOf env)
+    (by intro a; cases a <;> rfl) (by intro a h; cases a <;> exact h)
+    (by intro a; cases a <;> rfl) (by intro a; cases a <;> rfl) acts dangling nl hwf hd
+
+/-- every accepted document was addressed to a valid index name -/
+theorem created_have_valid_index (env : Env) (acts : List Action) : ∀ p ∈ created env acts, env.valid p.1 = true := by
+  intro p hp
+  obtain ⟨a, _, hpa⟩ := List.mem_flatMap.1 hp
+  cases a with
+  | single l => simp [storedOf] at hpa
+  | withDoc x d =>
+    by_cases h : x.kind ≠ Kind.update ∧ env.valid x.idx = true ∧ d.len < maxRecordSize ∧ d.docOk
+    · simp only [storedOf, if_pos h, List.mem_singleton] at hpa
+      rw [hpa]; exact h.2.1
+    · simp only [storedOf, if_neg h] at hpa
+      cases hpa
 
 /-- C15.1 one item per action, in request order, each determined by its own action only -/
-theorem items_per_action (acts : List Action) (dangling : Option Line) (nl : Bool)
+theorem items_per_action (env : Env) (acts : List Action) (dangling : Option Line) (nl : Bool)
     (hwf : ∀ a ∈ acts, a.wf) (hd : ∀ l, dangling = some l → l.kind ≠ Kind.other ∧ 0 < l.len) :
-    (handle (bodyOf acts dangling nl)).items = expectedItems acts dangling := by
-  have h := Lemmas.C15.handle_spec
-    (fun a => match a with | .single l => .single l | .withDoc a d => .withDoc a d)
-    Action.lines Action.wf status storedOf
-    (by intro a; cases a <;> rfl) (by intro a h; cases a <;> exact h)
-    (by intro a; cases a <;> rfl) (by intro a; cases a <;> rfl) acts dangling nl hwf hd
-  exact h.1
+    (handle env (bodyOf acts dangling nl)).items = expectedItems env acts dangling :=
+  (loop_spec env acts dangling nl hwf hd).1
 
-/-- C15.2 created ⇔ handed to the store: the stored documents are exactly those of created items, in order -/
-theorem stored_iff_created (acts : List Action) (dangling : Option Line) (nl : Bool)
+/-- C15.2 created ⇔ accepted for the store: the documents the loop keeps (`allPLEs`) are exactly those of the
+created items, in order, each under the index name of its own action -/
+theorem stored_iff_created (env : Env) (acts : List Action) (dangling : Option Line) (nl : Bool)
     (hwf : ∀ a ∈ acts, a.wf) (hd : ∀ l, dangling = some l → l.kind ≠ Kind.other ∧ 0 < l.len) :
-    (handle (bodyOf acts dangling nl)).stored = acts.flatMap storedOf ∧
-    (∀ a ∈ acts, (storedOf a ≠ [] ↔ status a = Status.created)) := by
-  have h := Lemmas.C15.handle_spec
-    (fun a => match a with | .single l => .single l | .withDoc a d => .withDoc a d)
-    Action.lines Action.wf status storedOf
-    (by intro a; cases a <;> rfl) (by intro a h; cases a <;> exact h)
-    (by intro a; cases a <;> rfl) (by intro a; cases a <;> rfl) acts dangling nl hwf hd
-  refine ⟨h.2.1, ?_⟩
+    (handle env (bodyOf acts dangling nl)).ples = acts.flatMap (storedOf env) ∧
+    (∀ a ∈ acts, (storedOf env a ≠ [] ↔ status env a = Status.created)) := by
+  refine ⟨(loop_spec env acts dangling nl hwf hd).2.1, ?_⟩
   intro a _
   cases a with
-  | single l => exact Lemmas.C15.storedOf_ne_nil_iff (.single l)
-  | withDoc x d => exact Lemmas.C15.storedOf_ne_nil_iff (.withDoc x d)
+  | single l => exact Lemmas.C15.storedOf_ne_nil_iff env (.single l)
+  | withDoc x d => exact Lemmas.C15.storedOf_ne_nil_iff env (.withDoc x d)
 
 /-- C15.3 `errors` is true iff some item failed (400 or 413) -/
-theorem errors_iff_some_failed (acts : List Action) (dangling : Option Line) (nl : Bool)
+theorem errors_iff_some_failed (env : Env) (acts : List Action) (dangling : Option Line) (nl : Bool)
     (hwf : ∀ a ∈ acts, a.wf) (hd : ∀ l, dangling = some l → l.kind ≠ Kind.other ∧ 0 < l.len) :
-    (handle (bodyOf acts dangling nl)).overallError = (expectedItems acts dangling).any (· ≠ Status.created) := by
-  have h := Lemmas.C15.handle_spec
-    (fun a => match a with | .single l => .single l | .withDoc a d => .withDoc a d)
-    Action.lines Action.wf status storedOf
-    (by intro a; cases a <;> rfl) (by intro a h; cases a <;> exact h)
-    (by intro a; cases a <;> rfl) (by intro a; cases a <;> rfl) acts dangling nl hwf hd
-  exact h.2.2
+    (handle env (bodyOf acts dangling nl)).overallError = (expectedItems env acts dangling).any (· ≠ Status.created) :=
+  (loop_spec env acts dangling nl hwf hd).2.2
 
 /-- C15.4 locality: replacing one action (and its document) by any other changes that item only -/
-theorem local_failure (pre post : List Action) (a a' : Action) (nl : Bool)
+theorem local_failure (env : Env) (pre post : List Action) (a a' : Action) (nl : Bool)
     (hwf : ∀ x ∈ pre ++ a :: post, x.wf) (hwf' : a'.wf) :
-    ∃ s s', (handle (bodyOf (pre ++ a :: post) none nl)).items = pre.map status ++ s :: post.map status ∧
-            (handle (bodyOf (pre ++ a' :: post) none nl)).items = pre.map status ++ s' :: post.map status := by
+    ∃ s s', (handle env (bodyOf (pre ++ a :: post) none nl)).items = pre.map (status env) ++ s :: post.map (status env) ∧
+            (handle env (bodyOf (pre ++ a' :: post) none nl)).items = pre.map (status env) ++ s' :: post.map (status env) := by
   have hwf2 : ∀ x ∈ pre ++ a' :: post, x.wf := by
     intro x hx
     rcases List.mem_append.1 hx with h | h
@@ -102,17 +133,174 @@ theorem local_failure (pre post : List Action) (a a' : Action) (nl : Bool)
     · rcases List.mem_cons.1 h with h | h
       · exact h ▸ hwf'
       · exact hwf x (List.mem_append_right _ (List.mem_cons_of_mem _ h))
-  refine ⟨status a, status a', ?_, ?_⟩
-  · rw [items_per_action _ none nl hwf (by intro l h; cases h)]
+  refine ⟨status env a, status env a', ?_, ?_⟩
+  · rw [items_per_action env _ none nl hwf (by intro l h; cases h)]
     simp [expectedItems]
-  · rw [items_per_action _ none nl hwf2 (by intro l h; cases h)]
+  · rw [items_per_action env _ none nl hwf2 (by intro l h; cases h)]
     simp [expectedItems]
+
+/-! ### after the loop: several indexes per request, the store -/
+
+/-- C15.5 every document acknowledged as created is handed to the store exactly once under ITS index name, in
+request order per index: for every index name `x`, what is handed over under `x` is — as a list, so with
+multiplicity and order — the created documents of the actions addressed to `x`, and there is at most one batch
+for `x`.  For every request, over any number of index names in any interleaving. -/
+theorem handed_once_under_its_index (env : Env) (acts : List Action) (dangling : Option Line) (nl : Bool)
+    (hwf : ∀ a ∈ acts, a.wf) (hd : ∀ l, dangling = some l → l.kind ≠ Kind.other ∧ 0 < l.len) (x : Nat) :
+    (handleReq env (bodyOf acts dangling nl)).handedUnder x = (created env acts).filter (·.1 == x) ∧
+    ((handleReq env (bodyOf acts dangling nl)).calls.filter (·.idx == x)).length ≤ 1 := by
+  have hp := (loop_spec env acts dangling nl hwf hd).2.1
+  have e : handleReq env (bodyOf acts dangling nl) =
+      { st := handle env (bodyOf acts dangling nl), calls := Lemmas.C15.callsOf env (created env acts) } := by
+    rw [← hp]; rfl
+  rw [e]
+  exact ⟨Lemmas.C15.handedUnder_callsOf env _ _ x, Lemmas.C15.callsOf_count env _ x⟩
+
+/-- C15.6 no document is handed to the store under another index: every batch consists of documents whose own
+index name is the batch's, is not empty, is never turned away by ProcessIndexRequestPle's own checks (index-name
+mismatch, invalid name), and reaches the store under the real index of its name (an alias resolved) -/
+theorem no_document_under_another_index (env : Env) (acts : List Action) (dangling : Option Line) (nl : Bool)
+    (hwf : ∀ a ∈ acts, a.wf) (hd : ∀ l, dangling = some l → l.kind ≠ Kind.other ∧ 0 < l.len) :
+    ∀ c ∈ (handleReq env (bodyOf acts dangling nl)).calls,
+      (∀ p ∈ c.docs, p.1 = c.idx) ∧ c.docs ≠ [] ∧
+      (c.res = .stored (env.resolve c.idx) ∨ c.res = .refused (env.resolve c.idx)) := by
+  intro c hc
+  have hp := (loop_spec env acts dangling nl hwf hd).2.1
+  rw [Lemmas.C15.handleReq_calls, hp] at hc
+  obtain ⟨h1, h2, _, h4⟩ := Lemmas.C15.callsOf_res env _ (created_have_valid_index env acts) c hc
+  exact ⟨h2, h4, h1⟩
+
+/-- C15.7 the response never depends on the store: whatever the store does with the batches, items, `errors`
+and the processed count are the same (the error of the store call is only logged) -/
+theorem response_independent_of_store (env : Env) (store' : Nat → List Nat → Bool) (body : List Line) :
+    (handleReq { env with store := store' } body).st = (handleReq env body).st := by
+  have hstep : ∀ s l r, stepAction { env with store := store' } s l r = stepAction env s l r := by
+    intro s l r; rfl
+  have hloop : ∀ f s b, loop { env with store := store' } f s b = loop env f s b := by
+    intro f
+    induction f with
+    | zero => intro s b; rfl
+    | succ f ih => intro s b; simp only [loop, hstep, ih]
+  exact hloop _ _ _
+
+/-- the full statement of "created ⇔ stored" at the store: for every request and every store behaviour, the
+documents the store took under each index name are exactly the created documents addressed to it -/
+def AcknowledgedIsStored : Prop :=
+  ∀ (env : Env) (acts : List Action) (dangling : Option Line) (nl : Bool),
+    (∀ a ∈ acts, a.wf) → (∀ l, dangling = some l → l.kind ≠ Kind.other ∧ 0 < l.len) →
+    ∀ x, (handleReq env (bodyOf acts dangling nl)).storedUnder x = docsOf env acts x
+
+/-- guard: the store accepts every batch of this request (decidable: finitely many batches) -/
+def storeAccepts (env : Env) (acts : List Action) : Bool :=
+  ((created env acts).map (·.1)).all (fun x => env.store (env.resolve x) (docsOf env acts x))
+
+/-- what the store holds for index name `x` after the request, exactly: the created documents addressed to `x` if
+the store accepted their batch, nothing otherwise -/
+theorem stored_under_exact (env : Env) (acts : List Action) (dangling : Option Line) (nl : Bool)
+    (hwf : ∀ a ∈ acts, a.wf) (hd : ∀ l, dangling = some l → l.kind ≠ Kind.other ∧ 0 < l.len) (x : Nat) :
+    (handleReq env (bodyOf acts dangling nl)).storedUnder x =
+      if env.store (env.resolve x) (docsOf env acts x) then docsOf env acts x else [] := by
+  have hp := (loop_spec env acts dangling nl hwf hd).2.1
+  have e : handleReq env (bodyOf acts dangling nl) =
+      { st := handle env (bodyOf acts dangling nl), calls := Lemmas.C15.callsOf env (created env acts) } := by
+    rw [← hp]; rfl
+  rw [e]
+  exact Lemmas.C15.storedUnder_callsOf env _ _ x (created_have_valid_index env acts)
+
+/-- C15.8a a store failure is local to its index: if the store accepts the batch of index name `x`, then exactly
+the created documents addressed to `x` are stored under it, in order — whatever happens to the other batches -/
+theorem store_failure_local (env : Env) (acts : List Action) (dangling : Option Line) (nl : Bool)
+    (hwf : ∀ a ∈ acts, a.wf) (hd : ∀ l, dangling = some l → l.kind ≠ Kind.other ∧ 0 < l.len) (x : Nat)
+    (hx : env.store (env.resolve x) (docsOf env acts x) = true) :
+    (handleReq env (bodyOf acts dangling nl)).storedUnder x = docsOf env acts x := by
+  rw [stored_under_exact env acts dangling nl hwf hd x, if_pos hx]
+
+/-- C15.8b what the code does when the store refuses a batch: nothing of it is stored, and every one of its
+items has nevertheless been answered `created` (the items are those of the per-action specification) -/
+theorem refused_batch_is_acknowledged (env : Env) (acts : List Action) (dangling : Option Line) (nl : Bool)
+    (hwf : ∀ a ∈ acts, a.wf) (hd : ∀ l, dangling = some l → l.kind ≠ Kind.other ∧ 0 < l.len) (x : Nat)
+    (hx : env.store (env.resolve x) (docsOf env acts x) = false) :
+    (handleReq env (bodyOf acts dangling nl)).storedUnder x = [] ∧
+    (handleReq env (bodyOf acts dangling nl)).st.items = expectedItems env acts dangling := by
+  refine ⟨?_, items_per_action env acts dangling nl hwf hd⟩
+  rw [stored_under_exact env acts dangling nl hwf hd x, hx]; rfl
+
+/-- C15.8 partial statement: when the store accepts every batch of the request, created ⇔ stored holds for
+every index name — and this guard is EXACTLY the class where it holds -/
+theorem acknowledged_is_stored_partial (env : Env) (acts : List Action) (dangling : Option Line) (nl : Bool)
+    (hwf : ∀ a ∈ acts, a.wf) (hd : ∀ l, dangling = some l → l.kind ≠ Kind.other ∧ 0 < l.len) :
+    storeAccepts env acts = true ↔
+      ∀ x, (handleReq env (bodyOf acts dangling nl)).storedUnder x = docsOf env acts x := by
+  constructor
+  · intro hg x
+    rw [stored_under_exact env acts dangling nl hwf hd x]
+    by_cases hx : x ∈ (created env acts).map (·.1)
+    · have := List.all_eq_true.1 hg x hx
+      rw [if_pos this]
+    · have : docsOf env acts x = [] := by
+        unfold docsOf
+        rw [Lemmas.C15.filter_nil_of_not_mem _ x hx]; rfl
+      rw [this]; split <;> rfl
+  · intro h
+    unfold storeAccepts
+    rw [List.all_eq_true]
+    intro x hx
+    have hne : docsOf env acts x ≠ [] := by
+      obtain ⟨p, hp, hpx⟩ := List.mem_map.1 hx
+      unfold docsOf
+      intro hnil
+      have hmem : p ∈ (created env acts).filter (·.1 == x) := List.mem_filter.2 ⟨hp, by simp [hpx]⟩
+      have : p.2 ∈ ((created env acts).filter (·.1 == x)).map (·.2) := List.mem_map.2 ⟨p, hmem, rfl⟩
+      rw [hnil] at this; cases this
+    have hx' := h x
+    rw [stored_under_exact env acts dangling nl hwf hd x] at hx'
+    cases hs : env.store (env.resolve x) (docsOf env acts x)
+    · rw [hs] at hx'; exact absurd hx'.symm hne
+    · rfl
+
+/-- a store that never fails satisfies the guard for every request -/
+theorem storeAccepts_of_never_fails (env : Env) (h : ∀ i ds, env.store i ds = true) (acts : List Action) :
+    storeAccepts env acts = true := by
+  unfold storeAccepts
+  rw [List.all_eq_true]
+  intro x _
+  exact h _ _
+
+/-- the code as it is violates the full statement: one `index` action with a good document, a store that
+refuses — the item is answered `created`, nothing is stored -/
+theorem acknowledged_is_stored_counterexample : ¬ AcknowledgedIsStored := by
+  intro h
+  have := h { valid := fun _ => true, resolve := id, store := fun _ _ => false }
+    [.withDoc ⟨.index, 29, true, 0, 0⟩ ⟨.other, 20, true, 7, 0⟩] none true
+    (by intro a ha; simp at ha; subst ha; simp [Action.wf]) (by intro l hl; cases hl) 0
+  revert this
+  decide
+
+/-- the guard is satisfiable, with several indexes, an alias and a failing item in the request -/
+example : storeAccepts { valid := fun x => x != 9, resolve := fun x => if x == 4 then 0 else x, store := fun _ _ => true }
+    [.withDoc ⟨.index, 29, true, 0, 0⟩ ⟨.other, 20, true, 1, 0⟩,
+     .withDoc ⟨.index, 29, true, 0, 4⟩ ⟨.other, 20, true, 2, 0⟩,
+     .withDoc ⟨.index, 29, true, 0, 9⟩ ⟨.other, 20, true, 3, 0⟩] = true := by decide
 
 /-- non-vacuity: an oversize document followed by a malformed one and a trailing delete -/
 example :
-    (handle (bodyOf [.withDoc ⟨.index, 29, true, 1⟩ ⟨.other, 63021, true, 2⟩,
-                     .withDoc ⟨.create, 30, true, 3⟩ ⟨.other, 20, false, 4⟩,
-                     .single ⟨.other, 40, true, 5⟩] none false)).items = [.tooLarge, .failed, .failed] := by
+    (handle { valid := fun _ => true, resolve := id, store := fun _ _ => true }
+      (bodyOf [.withDoc ⟨.index, 29, true, 1, 0⟩ ⟨.other, 63021, true, 2, 0⟩,
+               .withDoc ⟨.create, 30, true, 3, 0⟩ ⟨.other, 20, false, 4, 0⟩,
+               .single ⟨.other, 40, true, 5, 0⟩] none false)).items = [.tooLarge, .failed, .failed] := by
+  decide
+
+/-- non-vacuity, several indexes: index order A,A,B,A gives one batch for A with its three documents in request
+order and one batch for B; when the store refuses B's batch only B's document is lost, all four items are `created` -/
+example :
+    let r := handleReq { valid := fun _ => true, resolve := id, store := fun i _ => i != 1 }
+      (bodyOf [.withDoc ⟨.index, 29, true, 0, 0⟩ ⟨.other, 20, true, 1, 0⟩,
+               .withDoc ⟨.index, 29, true, 0, 0⟩ ⟨.other, 20, true, 2, 0⟩,
+               .withDoc ⟨.index, 29, true, 0, 1⟩ ⟨.other, 20, true, 3, 0⟩,
+               .withDoc ⟨.index, 29, true, 0, 0⟩ ⟨.other, 20, true, 4, 0⟩] none true)
+    r.st.items = [.created, .created, .created, .created] ∧ r.st.overallError = false ∧
+    r.calls = [⟨0, [(0, 1), (0, 2), (0, 4)], .stored 0⟩, ⟨1, [(1, 3)], .refused 1⟩] ∧
+    r.storedUnder 0 = [1, 2, 4] ∧ r.storedUnder 1 = [] := by
   decide
 
 end SigModel.Props.C15
